@@ -236,6 +236,10 @@ def main(argv):
         props = argv[3].split(",")
         scale = float(argv[4]) if len(argv) > 4 else 0.3
         recs = [json.loads(l) for l in open(inp)]
+        done = set()
+        if os.path.exists(outp):
+            done = {json.loads(l)["id"] for l in open(outp)}
+        recs = [r for r in recs if r["id"] not in done]
         by_file = {}
         with open(outp, "a") as out:
             for r in recs:
